@@ -34,7 +34,7 @@ func init() { register("C12", runC12) }
 //         N<o0><o1><o2><o3>         WebhooksService.Notify(event) with the outcome of the call to url i:
 //                                   k=200 c=201 n=404 s=503 t=transport error b=unreadable body (status 200)
 //         Z                         restart (Stack.Reopen: close the SQLite file, rebuild repositories + services)
-// observable: for every op  "<response>|<POSTs in call order>|<GET u0>,<GET u1>,<GET u2>,<GET u3>", joined by " ; ",
+// observable: for every op  "<response>|<POSTs, sorted>|<GET u0>,<GET u1>,<GET u2>,<GET u3>", joined by " ; ",
 //   followed by " ; DB " + the raw webhooks table in rowid order.
 //   view of a webhook:  e<errorsCount>a<0|1>s<lastEmitStatus>t<lastEmitTimestamp>  or "404"
 //     lastEmitStatus canonical: "-" (empty), "<code>:<body>", TE (transport error), BE (body read error)
@@ -445,6 +445,7 @@ func c12Exec(c *Ctx, input string, seq int) (obs string) {
 					ps = append(ps, p.String())
 				}
 				w.mu.Unlock()
+				sort.Strings(ps) // the order of the calls is not part of the property
 				posts = strings.Join(ps, ",")
 			case op == "Z":
 				s2, err := r.s.Reopen()
